@@ -19,7 +19,7 @@ func init() {
 		Explanation: "(R1) the stream's own id is written into the frame before every Encode of a stream frame; (R2) the client stream table is read, inserted, deleted and ranged only with its mutex held (the connReset exception is verified by caller-holds-lock, not waived); " +
 			"(R3) consume-once: in handleResponse the entry is deleted with the key it was looked up with, inside one critical section, before the receiver is invoked, and an unknown/duplicate id returns without touching any receiver; streams are inserted under their own id; " +
 			"(R4) every GenerateRequestID draws from atomic.AddUint64 on the connection's counter; (R5) one Write is one critical section: the connection's write buffers are appended and flushed only on the TryLock-success branch; " +
-			"(R6) a ping-pong client whose exchange was reset is closed, not pooled (same rule as C09.R2); (R7) timer callbacks disable buffer reuse, check cleaned, check the generation id and win the CAS, in that order, before touching the stream; (R8) buffers are recycled only when reuse is still enabled and neither side was reset. (R9) Dispatch advances the context manager on every path from handleFrame to the next Decode and Decode receives the context obtained in the same iteration. (R10) every Reset of a per-stream BufferPoolCtx on the request path (proxy, http, xprotocol streams, bolt/boltv2 frame models) returns the object to its zero state, as a whole-value store or field by field. (R7, rewritten) the timer callback together with the helper methods it calls: reuse off first, cleaned check, generation check against an id captured when the timer was armed (closure variable or helper parameter bound to one), CAS, handler only for the winner. (R11) the C01.R7 taint rule on pkg/stream/http2 as a clause of this property: the []byte HandleFrame returns is copied, never wrapped, stored or kept. (R12) the C01.R2 alias analysis as a clause of this property: nothing derived by slicing the connection read buffer is kept in a decoded frame. (R13) the C09.R8 reset-closes analysis as a clause of this property: a reset ping-pong exchange never leaves its connection in the idle list, where the late response would be read by the next request.",
+			"(R6) a ping-pong client whose exchange was reset is closed, not pooled (same rule as C09.R2); (R7) timer callbacks disable buffer reuse, check cleaned, check the generation id and win the CAS, in that order, before touching the stream; (R8) buffers are recycled only when reuse is still enabled and neither side was reset. (R9) Dispatch advances the context manager on every path from handleFrame to the next Decode and Decode receives the context obtained in the same iteration. (R10) every Reset of a per-stream BufferPoolCtx on the request path (proxy, http, xprotocol streams, bolt/boltv2 frame models) returns the object to its zero state, as a whole-value store or field by field. (R7, rewritten) the timer callback together with the helper methods it calls: reuse off first, cleaned check, generation check against an id captured when the timer was armed (closure variable or helper parameter bound to one), CAS, handler only for the winner. (R11) the C01.R7 taint rule on pkg/stream/http2 as a clause of this property: the []byte HandleFrame returns is copied, never wrapped, stored or kept. (R12) the C01.R2 alias analysis as a clause of this property: nothing derived by slicing the connection read buffer is kept in a decoded frame. (R13) the C09.R8 reset-closes analysis as a clause of this property: a reset ping-pong exchange never leaves its connection in the idle list, where the late response would be read by the next request. (R14) every send on serverStream.responseDoneChan is preceded by doSend() on every path.",
 		Run: runC02,
 	})
 }
